@@ -37,6 +37,35 @@ func RunAccess(conf core.Config) *core.Result {
 				}
 				name := core.FuncName(pkg, fd)
 				par := cfgx.Parents(fd.Body)
+				// locals holding a dimension: r, c := a.Dims()
+				dimOf := map[types.Object]string{}
+				ast.Inspect(fd.Body, func(n ast.Node) bool {
+					as, ok := n.(*ast.AssignStmt)
+					if !ok || len(as.Lhs) != 2 || len(as.Rhs) != 1 {
+						return true
+					}
+					c, ok := as.Rhs[0].(*ast.CallExpr)
+					if !ok {
+						return true
+					}
+					if sel, ok := c.Fun.(*ast.SelectorExpr); !ok || sel.Sel.Name != "Dims" {
+						return true
+					}
+					// `n, _ := a.Dims()` names the one dimension of a square matrix
+					for _, l := range as.Lhs {
+						if id, ok := l.(*ast.Ident); !ok || id.Name == "_" {
+							return true
+						}
+					}
+					for i, l := range as.Lhs {
+						if id, ok := l.(*ast.Ident); ok && id.Name != "_" {
+							if o := core.ObjOf(info, id); o != nil {
+								dimOf[o] = []string{"Rows", "Cols"}[i]
+							}
+						}
+					}
+					return true
+				})
 				ast.Inspect(fd.Body, func(n ast.Node) bool {
 					c, ok := n.(*ast.CallExpr)
 					if !ok || !cfgx.IsPanic(info, c) || len(c.Args) != 1 {
@@ -79,6 +108,10 @@ func RunAccess(conf core.Config) *core.Result {
 						case *ast.SelectorExpr:
 							if strings.HasPrefix(x.Sel.Name, "cap") || x.Sel.Name == other {
 								bad = types.ExprString(x)
+							}
+						case *ast.Ident:
+							if dimOf[core.ObjOf(info, x)] == other {
+								bad = x.Name + " (the " + strings.ToLower(other) + " of Dims())"
 							}
 						case *ast.CallExpr:
 							if f, ok := x.Fun.(*ast.Ident); ok && f.Name == "cap" {
